@@ -158,11 +158,13 @@ def build(sp, omit=(), labels=None, originals=None, into=None):
         s = pyPRISM.System(types, kT=num(sp['kT']))
     if st == 'replace' and into is None:
         # the documented public containers replaced wholesale by newly created ones, filled afterwards
-        s.density = pyPRISM.Density([lab(t) for t in sp['types']])
-        s.diameter = pyPRISM.Diameter([lab(t) for t in sp['types']])
-        s.potential = pyPRISM.PairTable([lab(t) for t in sp['types']], 'potential')
-        s.closure = pyPRISM.PairTable([lab(t) for t in sp['types']], 'closure')
-        s.omega = pyPRISM.PairTable([lab(t) for t in sp['types']], 'omega')
+        # ... every other time listing the labels in another order than the System does: the containers are keyed by label
+        order = list(sp['types']) if (spec_hash(sp) // 10) % 2 == 0 else list(reversed(sp['types']))
+        s.density = pyPRISM.Density([lab(t) for t in order])
+        s.diameter = pyPRISM.Diameter([lab(t) for t in order])
+        s.potential = pyPRISM.PairTable([lab(t) for t in order], 'potential')
+        s.closure = pyPRISM.PairTable([lab(t) for t in order], 'closure')
+        s.omega = pyPRISM.PairTable([lab(t) for t in order], 'omega')
     if 'domain' not in omit:
         s.domain = make_domain(sp)
     for name, table, vals in (('rho', s.density, sp['rho']), ('d', s.diameter, sp['d'])):
